@@ -132,6 +132,7 @@ func run(c *fw.Ctx) {
 				c.Eval()
 				c.Distinct(name + "|" + tag)
 				plan.ByteReader = br
+				c.Guard("read", rcase{name, plan})
 				msg, _ := runPlan(w, plan)
 				if c.WantSample() && c.Shard == 0 {
 					c.Sample(rcase{name, plan})
@@ -251,5 +252,6 @@ func Main() {
 		Replay:         replay,
 		QuickBudget:    100 * time.Second,
 		ThoroughBudget: 25 * time.Minute,
+		MemLimitMB:     4096,
 	})
 }
